@@ -285,6 +285,12 @@ def stepApi (s : St) (ws : List String) : Option (St × List String) :=
     | _, _ => bad
   -- track apileft (`Model/IovecApi2.lean`; `Props/C05B`): values safe code gets from `Default` only
   | ["a_default"] => some (runApi s [.newArena] [] none)                    -- `ByteArena::default()`
+  | ["is_empty", v] =>                                                      -- `OwningIovec::is_empty()` / `len()`
+    match handle 'v' v with
+    | some i => match w.iov i with
+      | some iv => some (ok s w ["R " ++ (if iv.slices.isEmpty then "1" else "0") ++ " len=" ++ toString iv.slices.length] (some i))
+      | none => bad
+    | none => bad
   | ["push_anchor_default", v, n] =>                                        -- `push_anchor(Default::default())`
     match handle 'v' v, n.toNat? with
     | some i, some n =>
